@@ -43,7 +43,7 @@ theorem stage_scrub (T q i : String) (d : List (String × J))
     the two sub-requests with `A`'s and `B`'s shares, the gateway model returns the object under `q`
     with `A`'s answers followed by `B`'s — helper id removed, no errors. -/
 theorem stage_gateway (h : Fam c A B T q fs) (down : Downstream) (i : String) (a b : List (String × J))
-    (hq1 : '#' ∉ q.toList) (hq2 : ':' ∉ q.toList) (hqne : q.toList ≠ []) (hi : '#' ∉ i.toList) (hine : i ≠ "")
+    (hq1 : '#' ∉ q.toList) (hq2 : ':' ∉ q.toList) (hqne : q.toList ≠ []) (hine : i ≠ "")
     (hA : down A [rqOf c (rootStep A B T q fs) []] = .ok [respA q i a])
     (hB : fsB fs ≠ [] → down B [rqOf c (stepB B T q (fsB fs)) [("id", .str i)]] = .ok [[("node", .obj b)]])
     (hb0 : fsB fs = [] → b = [])
@@ -51,7 +51,7 @@ theorem stage_gateway (h : Fam c A B T q fs) (down : Downstream) (i : String) (a
     (hid : "id" ∉ J.keys (a ++ b)) (htn : "__typename" ∉ J.keys (a ++ b)) (hne : a ++ b ≠ []) :
     ∃ calls, gateway c {} ⟨.query, "", [], [Q T q fs]⟩ none down
       = .ok ⟨some [(q, .obj (a ++ b))], [], calls⟩ := by
-  obtain ⟨calls, hex⟩ := stage_execute h down i a b hq1 hq2 hqne hi hine hA hB hb0 hbnd hdisj
+  obtain ⟨calls, hex⟩ := stage_execute h down i a b hq1 hq2 hqne hine hA hB hb0 hbnd hdisj
   refine ⟨calls, ?_⟩
   unfold gateway plan
   simp only [stage_sanitize h, bind, Except.bind, stage_plan h]
